@@ -120,6 +120,25 @@ def run (cfg : Cfg) : LNode → List Request → LNode × List Response
   | n, r :: rs =>
     ((run cfg (submit cfg n r).1 rs).1, (submit cfg n r).2 :: (run cfg (submit cfg n r).1 rs).2)
 
+/-- a complete version of ANOTHER actor arrives (`process_multiple_changes`, complete changeset of an
+unknown version): its changes are merged through `crsql_changes` and the origin's db-version row is
+recorded.  Version numbers are per actor: this neither moves the node's own version counter
+(`db.dbv` = `crsql_db_version()`), nor its own bookkeeping, nor its outbox.  (The remote actor's
+bookkeeping is C01/C03's business and not observed here.) -/
+def LNode.remote (n : LNode) (chs : List Chg) : LNode := { n with node := n.node.mergeChanges chs }
+
+/-- a history: local requests and remote versions in any interleaving -/
+inductive Event where
+  | req (r : Request)
+  | remote (chs : List Chg)
+deriving Inhabited
+
+def runE (cfg : Cfg) : LNode → List Event → LNode × List Response
+  | n, [] => (n, [])
+  | n, .req r :: es =>
+    ((runE cfg (submit cfg n r).1 es).1, (submit cfg n r).2 :: (runE cfg (submit cfg n r).1 es).2)
+  | n, .remote chs :: es => runE cfg (n.remote chs) es
+
 def Response.version? : Response → Option Nat
   | .ack v _ _ => some v
   | _ => none
